@@ -21,8 +21,8 @@ MUTATORS = ("fickle.Interpreter.step", "fickle.Interpreter.run", "fickle.Interpr
 def direct_writes_fresh(eng, f, entry, tag, since=0):
     """tracing is passive: every write Trace.run makes *itself* (not on behalf of interpreter.step / to_ast) hits an object it allocated"""
     seen = set()
-    for comp, ref, origin in f.writes[since:]:
-        if origin is not None or comp == "cls" or ref is None:
+    for comp, ref, origin, _c in f.writes[since:]:
+        if origin is not None or comp in ("cls", "list.nodeowned") or ref is None:
             continue
         key = (comp, ref.get_id())
         if key in seen:
